@@ -2,7 +2,7 @@
 use serde::{Deserialize, Serialize};
 use std::sync::OnceLock;
 use text2num::verif_hooks::{tokenize, BasicToken};
-use text2num::{find_numbers, LangInterpreter, Language, Occurence, Replace, Token};
+use text2num::{find_numbers, BasicAnnotate, LangInterpreter, Language, Occurence, Replace, Token};
 
 pub const LANGS: [&str; 7] = ["de", "en", "es", "fr", "it", "nl", "pt"];
 
@@ -130,6 +130,14 @@ impl Token for &Tk {
     }
     fn not_a_number_part(&self) -> bool {
         self.nan
+    }
+}
+impl BasicAnnotate for Tk {
+    fn text_lowercase(&self) -> &str {
+        &self.lower
+    }
+    fn set_nan(&mut self, val: bool) {
+        self.nan = val
     }
 }
 thread_local! {
